@@ -4,6 +4,30 @@ NOTES = "All checks: ./check <id> --tier quick|thorough. Lean theorems are about
 NOTE = ("theorem about a hand-written Lean model; tied to /repo's working tree by the differential correspondence run of the same check "
         "(its reach is its generators' reach); Lean kernel + propext/Classical.choice/Quot.sound only; harness + cfg(redb_verif) hooks trusted")
 CLAIMED = {
+    "C19": {
+        "text": "Lean theorems: on any tree that passes the format checker, a reader that only compares routing keys finds exactly the sorted "
+                "entries (so the shortened separators this version writes are legal for an older reader), a shortened separator is a valid "
+                "encoding of the key type between its neighbours, fixed-width keys are never shortened. Correspondence by a second "
+                "implementation: generated programs are written by this code and opened by redb 3.0.0 (from the offline registry) and the "
+                "reverse - clean and crash-left files - with identical contents, passing check_integrity, then continued by the other version "
+                "and read back by the first; every image also passes the Lean format checker.",
+        "note": NOTE + "; only release 3.0.0 and 4 KiB pages; type-name compatibility of composite user types is covered by C17's legacy cases",
+        "technique": "Lean 4 proof (routing with shortened separators) + cross-version differential testing against redb 3.0.0",
+        "category": "proof",
+        "design_ref": "DESIGN.md §6 C19",
+    },
+    "C20": {
+        "text": "Lean theorems: the contract automaton accepts a call stream iff close occurs exactly once and as the last call, and (read-only) "
+                "no write/set_len/sync_data occurs; layout arithmetic: every in-range page lies entirely inside the file, pages of different "
+                "regions are disjoint. The recording backend checks on the implementation, in every harness run, that all reads and writes lie "
+                "inside the current length, that the file is never shorter than a page in use, close count and calls after close; dedicated "
+                "scenarios cover every failing open (bad magic/geometry, truncated/extended, aborted repair, an I/O error at each call of the "
+                "open path), read-only databases, a Database dropped with a live write transaction and readers outliving it. A genuine "
+                "defect found by this check (read beyond the end of a file truncated inside the header) was fixed (known_findings.json).",
+        "note": NOTE + "; the close-versus-in-flight-call race under preemption (DESIGN F1) is not exercised yet (needs pause points); bounds are observed, not proved about the code",
+        "technique": "Lean 4 proof (contract automaton, layout arithmetic) + recording backend on the real code",
+        "design_ref": "DESIGN.md §6 C20",
+    },
     "C04": {
         "text": "Lean theorems: the specification Spec (strictly sorted association list under the key comparator) satisfies the sorted-map laws "
                 "for every comparator with CmpLaws (proved for all built-in key types in C15), every map, key and value: insert/remove keep "
@@ -42,6 +66,32 @@ CLAIMED = {
         "technique": "Lean 4 proof of a trace monitor (page ownership) + observation of the real system through read-only hooks",
         "design_ref": "DESIGN.md §6 C06",
     },
+    "C01": {
+        "text": "Lean theorem c01_crash_recover, for every event stream accepted by the protocol monitor, every prefix (crash instant) and every "
+                "crash outcome of the durable disk and the pending writes (any subset, each page write whole or torn to garbage, header writes "
+                "torn field-wise with an atomic god byte, each set_len applied or not): the recovery function returns a slot that is valid, "
+                "whose whole tree verifies, and that is either the commit served before or the commit in flight - never an error, never a "
+                "mixture (c01_never_mixture), never older than a completed durable commit (c01_durable_not_lost), and again after a crash "
+                "during the repair commit (c01_recovery_idempotent). The monitor conditions (copy-on-write w.r.t. the served tree, header write "
+                "discipline, 2-phase flip only after the sync, length rules) are checked on recorded real storage streams; the recovery model "
+                "is compared with the real recovery on crash images; and the real recovery is run on ~38,000 crash images per quick run "
+                "(incl. torn writes and second-generation crashes) against the allowed commit window.",
+        "note": NOTE + "; idealisations (explicit in Model/Storage.lean, no axiom): changed page bytes fail verification and a torn slot is invalid (XXH3-128 collision freedom), single-byte atomicity; the abstraction of byte-level writes into events is trusted driver code; only the recorded histories' streams are known to be accepted by the monitor",
+        "technique": "Lean 4 proof (invariant over an abstract disk with crash outcomes) + recorded-stream monitor + crash-image enumeration with the real recovery",
+        "design_ref": "DESIGN.md §6 C01",
+    },
+    "C08": {
+        "text": "Lean theorems about the transcription of the I/O error latch: once a required backend call has failed every later request is "
+                "refused without reaching the backend (sticky over any request sequence), success is never reported unless the backend did "
+                "the work, after close every request is refused; and the storage left behind by a run cut short after any prefix of an "
+                "accepted stream is covered by C01's crash theorem (failing commit applied entirely or not at all). On the implementation a "
+                "failure is injected at every (quick: sampled) index of the backend-call stream of generated workloads, once and permanently: "
+                "no panic, no acknowledged commit lost, reads correct or error, writes refused after a reported error, nothing but close() "
+                "reaches the backend after the latch, close exactly once, reopened contents inside the allowed window.",
+        "note": NOTE + "; an absorbed best-effort eviction write failure (no caller sees an error, page stays buffered) is not counted as a storage failure; crash states of the failed run's storage beyond 'as left' are covered by C01's enumeration",
+        "technique": "Lean 4 proof (latch automaton + reuse of the crash theorem) + exhaustive-by-index fault injection on the real code",
+        "design_ref": "DESIGN.md §6 C08",
+    },
     "C02": {
         "text": "Proven monitor (shared with C06): over any accepted trace the pages of a live reader's snapshot stay allocated and never change "
                 "owner except into pending-free records of later transactions (c02_pinned_never_released / never_reused, c02_step_keeps_pinned). "
@@ -71,6 +121,18 @@ CLAIMED = {
         "note": NOTE + "; the theorems are about the ownership monitor (proven-monitor correspondence): they turn `accept trace` into the property for every accepted trace; that every trace the real system can produce is accepted is checked only on the generated histories; the monitor works on page ownership, byte-level immutability of pinned pages and table contents are judged by the harness oracles (fingerprints, re-reads, recorded commit points); single-threaded histories",
         "technique": "Lean 4 proof of a trace monitor + savepoint histories on the real database",
         "design_ref": "DESIGN.md §6 C07",
+    },
+    "C10": {
+        "text": "Lean theorems: soundness of the executable format checker for all images: checkImage = ok implies the primary slot checksum is "
+                "valid, and for both master trees, every user table (normal and multimap incl. inline and subtree value sets) and every "
+                "internal table: every stored checksum from the root header down to each leaf equals the hash of the bytes it covers, keys "
+                "strictly increasing, routing keys bound their subtrees, all leaves at one depth, stored lengths equal the entries present, no "
+                "page referenced twice and no two pages overlapping; routing through the stored separators equals lookup in the sorted entry "
+                "list. The checker follows only the documented format (own decoder, own XXH3-128) and is run on every image the C04/C09 "
+                "generators produce after durable commits and clean closes, where its decoded contents must equal what the API returned.",
+        "note": NOTE + "; here the Lean decoder IS the specification of the format; 'for every history' rests on the sampled images; only the primary slot is checked",
+        "technique": "Lean 4 proof (soundness of an executable format validator) run on real committed images",
+        "design_ref": "DESIGN.md §6 C10",
     },
     "C11": {
         "text": "Lean theorems: every state the monitor accepts after an open satisfies the exactly-one-owner accounting with all pins and the "
